@@ -157,6 +157,8 @@ carquet_status_t carquet_schema_add_column(
     elem->has_repetition = true;
     elem->repetition_type = repetition;
     elem->type_length = type_length;
+    elem->max_def_level = (repetition != CARQUET_REPETITION_REQUIRED) ? 1 : 0;
+    elem->max_rep_level = (repetition == CARQUET_REPETITION_REPEATED) ? 1 : 0;
 
     if (logical_type) {
         elem->has_logical_type = true;
@@ -201,6 +203,8 @@ int32_t carquet_schema_add_group(
     elem->has_repetition = true;
     elem->repetition_type = repetition;
     elem->num_children = 0;
+    elem->max_def_level = (repetition != CARQUET_REPETITION_REQUIRED) ? 1 : 0;
+    elem->max_rep_level = (repetition == CARQUET_REPETITION_REPEATED) ? 1 : 0;
 
     schema->num_elements++;
     schema->elements[0].num_children++;
@@ -291,13 +295,13 @@ carquet_field_repetition_t carquet_schema_node_repetition(const carquet_schema_n
 int16_t carquet_schema_node_max_def_level(const carquet_schema_node_t* node) {
     /* node is nonnull per API contract */
     const parquet_schema_element_t* elem = (const parquet_schema_element_t*)node;
-    return (elem->repetition_type == CARQUET_REPETITION_OPTIONAL) ? 1 : 0;
+    return elem->max_def_level;
 }
 
 int16_t carquet_schema_node_max_rep_level(const carquet_schema_node_t* node) {
     /* node is nonnull per API contract */
     const parquet_schema_element_t* elem = (const parquet_schema_element_t*)node;
-    return (elem->repetition_type == CARQUET_REPETITION_REPEATED) ? 1 : 0;
+    return elem->max_rep_level;
 }
 
 int32_t carquet_schema_node_type_length(const carquet_schema_node_t* node) {
